@@ -167,6 +167,24 @@ var c05Templates = []string{
 	"return {__proto__: {x: 1}, ['__proto__']: 2, m() { return super.x }}.m();",
 	"return {a, b, [c]: 1, get g() { return 1 }, set g(v) {}, async am() {}, *gm() {}, async *agm() {}};",
 	"label: for (var x of [1, 2]) { for (var y of [1, 2]) { if (y == 2) continue label; H.p(90, x * 10 + y) } } return 1;",
+	// default parameter values of async functions: an exception thrown while they are evaluated rejects the returned
+	// promise, it must never escape the call synchronously (the lowered form keeps "harmless" defaults on the outer function)
+	"return (() => { try { return (async function(x = $0) { return x })().then(v => ['resolved', v], e => ['rejected', e && e.name]) } catch (e) { return ['threw synchronously', e && e.name] } })();",
+	"return (() => { try { return (async function(x = {[$0]: 1}) { return x })().then(v => ['resolved', v], e => ['rejected', e && e.name]) } catch (e) { return ['threw synchronously', e && e.name] } })();",
+	"return (() => { try { return (async function(x = [$0]) { return x })().then(v => ['resolved', v], e => ['rejected', e && e.name]) } catch (e) { return ['threw synchronously', e && e.name] } })();",
+	"return (() => { try { return (async function(x = {a: $0}) { return x })().then(v => ['resolved', v], e => ['rejected', e && e.name]) } catch (e) { return ['threw synchronously', e && e.name] } })();",
+	"return (() => { try { return (async function(x = {a: {[$0]: 2}}) { return x })().then(v => ['resolved', v], e => ['rejected', e && e.name]) } catch (e) { return ['threw synchronously', e && e.name] } })();",
+	"return (() => { try { return (async function(x = {a: 1, [$0]: $1}) { return x })().then(v => ['resolved', v], e => ['rejected', e && e.name]) } catch (e) { return ['threw synchronously', e && e.name] } })();",
+	"return (() => { try { return (async function(x = [[1], {b: [$0]}]) { return x })().then(v => ['resolved', v], e => ['rejected', e && e.name]) } catch (e) { return ['threw synchronously', e && e.name] } })();",
+	"return (() => { try { return (async function(x = {a() {}, [$0]: () => 1}) { return x })().then(v => ['resolved', v], e => ['rejected', e && e.name]) } catch (e) { return ['threw synchronously', e && e.name] } })();",
+	"return (() => { try { return (async (x = {[$0]: 1}) => x)().then(v => ['resolved', v], e => ['rejected', e && e.name]) } catch (e) { return ['threw synchronously', e && e.name] } })();",
+	"return (() => { try { return ({async m(x = {[$0]: 1}) { return x }}).m().then(v => ['resolved', v], e => ['rejected', e && e.name]) } catch (e) { return ['threw synchronously', e && e.name] } })();",
+	"return (() => { try { return (async function(x = {[$0]: 1}, y = 2) { return [x, y, arguments.length] })().then(v => ['resolved', v], e => ['rejected', e && e.name]) } catch (e) { return ['threw synchronously', e && e.name] } })();",
+	"return (() => { try { return (async function*(x = {[$0]: 1}) { yield x })().next().then(v => ['resolved', v], e => ['rejected', e && e.name]) } catch (e) { return ['threw synchronously', e && e.name] } })();",
+	"return (() => { try { return (async (x = $0) => x)().then(v => ['resolved', v], e => ['rejected', e && e.name]) } catch (e) { return ['threw synchronously', e && e.name] } })();",
+	"return (() => { try { return ({async m(x = $0) { return x }}).m().then(v => ['resolved', v], e => ['rejected', e && e.name]) } catch (e) { return ['threw synchronously', e && e.name] } })();",
+	"return (() => { try { return (async function(x = $0, y = 2) { return [x, y, arguments.length] })().then(v => ['resolved', v], e => ['rejected', e && e.name]) } catch (e) { return ['threw synchronously', e && e.name] } })();",
+	"return (() => { try { return (async function*(x = $0) { yield x })().next().then(v => ['resolved', v], e => ['rejected', e && e.name]) } catch (e) { return ['threw synchronously', e && e.name] } })();",
 }
 
 var c05Targets = []xcfg{
